@@ -190,6 +190,11 @@ impl ObjectReceiver {
 
         if self.transfer_length.unwrap() == 0 {
             debug_assert!(self.block_writer.is_none());
+            if self.content_length.unwrap_or_default() != 0 {
+                return Err(FluteError::new(
+                    "Transfer length is null whereas Content-Length is not",
+                ));
+            }
             self.complete(now);
             return Ok(());
         }
